@@ -21,6 +21,26 @@ RULES = {
 }
 
 
+PROPERTIES = ['C09', 'C10', 'C11']
+MANIFEST = {
+    'C09': dict(category='model_checking',
+              technique='TLA+ spec BinaryMerkle (RFC 6962 oracle + MMR design) model-checked by TLC; TLC-enumerated histories replayed into the real trees; recorded traces of 3 implementations validated by TLC against the spec',
+              text='TLC checks RootIsMTH/PeaksShape/StoreHoldsPeaks on all histories <= MaxLen; every history is replayed into binary::MerkleTree, in_memory::MerkleTree and MerkleRootCalculator comparing roots with the RFC recursion; a dense trace (every count 1..N, random leaf lengths incl. empty, one-shot helpers and ephemeral_merkle_root at boundary counts) is validated event by event by BinaryMerkle_Trace.',
+              note='Trusts java MessageDigest SHA-256 inside TLC and the harness plumbing (no expected values in the harness). Bounded: MaxLen 5/6 histories exhaustively, counts up to 260/1200 in traces.',
+              design_ref='4/C09'),
+    'C10': dict(category='model_checking',
+              technique='TLA+ RFC 6962 audit-path verifier (VerifyRef/RootFromPath) as oracle in a TLC trace specification; real verifier verdicts on structured proof mutations validated against it; ProofsVerify model-checked',
+              text="For every (n, i) in the driver's grid the real proof and 20+ mutations (index/count perturbations incl. u64 extremes, dropped/duplicated/reversed/appended elements, other leaf's proof or data, flipped root) are fed to binary::verify; TLC recomputes the RFC verification with exact BigNat index arithmetic and requires verdict equality; real proofs must equal the RFC audit path.",
+              note='Same trusted base as C09. Sampled indices for n > 17.',
+              design_ref='4/C10'),
+    'C11': dict(category='model_checking',
+              technique='TLC enumerates ALL histories of push/reset/load/prove up to a bound from the BinaryMerkle spec and each is replayed into the real storage-backed and in-memory trees; random longer histories validated as traces',
+              text='Exhaustive small-scope enumeration (17 640 histories at MaxLen 5, ~150k at 6) bound to the code by replay with root, count, proof definedness and proof bytes compared after every step; plus seeded histories of 5-120 operations validated by BinaryMerkle_Trace.',
+              note='Load is exercised at k <= current leaves of the source store (the reload point of the property); the store is forked for the reload.',
+              design_ref='4/C11'),
+}
+
+
 def _distinct(pid, events):
     keys = set()
     cnt = {}
